@@ -266,6 +266,22 @@ func (m *RegistryModel) Compare(e *Env, o *lab.Obs, viol func(rule, sig, msg str
 		}
 		// retention set
 		if !sameRecords(oe.recs, en.InState) {
+			// C07's half: a record the retention limit still covers is gone, or a record still held
+			// (even one that should have been pruned) no longer carries the submitted content
+			have := map[uint64]string{}
+			for _, r := range oe.recs {
+				have[r.Key] = r.Content
+			}
+			for _, r := range en.InState {
+				if _, ok := have[r.Key]; !ok {
+					viol("record-lost-within-retention", m.Kind, fmt.Sprintf("%s %d (limit %d, %d recorded): record %d is among the newest %d but is no longer in state (state holds %s)", m.Kind, id, en.Limit, en.Total, r.Key, len(en.InState), keysOf(oe.recs)))
+				}
+			}
+			for _, r := range en.All {
+				if got, ok := have[r.Key]; ok && got != r.Content {
+					viol("record-content", m.Kind, fmt.Sprintf("%s %d record %d is %q, submitted %q", m.Kind, id, r.Key, got, r.Content))
+				}
+			}
 			viol("retention-set", m.Kind, fmt.Sprintf("%s %d (limit %d) holds %s, expected newest %d of %d recorded: %s", m.Kind, id, en.Limit, keysOf(oe.recs), len(en.InState), en.Total, keysOf(en.InState)))
 			en.InState = append([]regRecord(nil), oe.recs...) // resynchronise
 		} else {
